@@ -213,9 +213,14 @@ func finish(rep *vevid.Report, sc scenario, x *vsched.Result) {
 			return
 		}
 	}
-	// one more trigger (sequential): now everything is rolled up, once
-	kv.VerifFamilyRollup(w.fam)
-	idle(w.fam)
+	// one more trigger (sequential): now everything is rolled up, once. It runs as a controlled execution without
+	// branching: the job goes on for two atomic stores after it released the family's wait group, and on a free
+	// goroutine those stores would be taken for steps of the next explored execution (a flaky replay divergence)
+	vsched.Run(nil, 400000, func() {
+		vsched.Quiet(true)
+		kv.VerifFamilyRollup(w.fam)
+		kv.VerifFamilyWait(w.fam)
+	})
 	end, err := targetLetters()
 	if err != nil {
 		viol("target-unreadable", "kv rollup", err.Error())
